@@ -54,10 +54,10 @@ def C01_step_Full : Prop :=
   ∀ (f : Forest) (n : Bool) (op : Op), f.wf = true → Admissible Cfg.patched f n op = true →
     (stepA Cfg.patched f n op).forest.wf = true
 
-theorem dropAll_ok (f : Forest) (m : Meta) (its : Items) (hf : f.ok = true)
-    (hits : okItems m.id m.path its = true) : (dropAll Cfg.patched f m its).ok = true := by
+theorem dropAll_ok (f : Forest) (t : Nat) (m : Meta) (its : Items) (hf : f.ok = true)
+    (hits : okItems m.id m.path its = true) : (dropAll Cfg.patched f t m its).ok = true := by
   unfold dropAll
-  apply addRoots_ok _ _ (mapAt_ok f m.id _ (clear_local m.id) hf)
+  apply addRoots_ok _ _ (mapAt_ok f t _ (clear_local t) hf)
   intro t ht
   simp only [List.mem_map, childNodes, List.mem_filter] at ht
   obtain ⟨c, ⟨⟨kv, hkv, rfl⟩, _⟩, rfl⟩ := ht
@@ -212,7 +212,7 @@ theorem C01_step_partial (f : Forest) (n : Bool) (op : Op) (hf : f.ok = true) (h
         simp only [step, hfind]
         split
         · exact hf
-        · exact dropAll_ok f m its hf hits
+        · exact dropAll_ok f t m its hf hits
   | lSort t ranks rev =>
     cases hfind : f.find? t with
     | none => simp only [step, hfind]; exact hf
@@ -282,7 +282,7 @@ theorem C01_step_partial (f : Forest) (n : Bool) (op : Op) (hf : f.ok = true) (h
         simp only [step, hfind]
         split
         · exact hf
-        · exact dropAll_ok f m its hf hits
+        · exact dropAll_ok f t m its hf hits
 
 /-! ## Histories -/
 
